@@ -94,6 +94,11 @@ BBurst_(p, vs) ==
   /\ pend' = BurstPushF(pend, p, vs)                                 \* that TLC handles 2^16 elements iteratively, in one pass)
   /\ UNCHANGED vvars
 
+\* push_back(v) by producer p ended with an exception thrown by the copy of the element: the statement speaks
+\* of pushed elements only, so the call may count as not made, or as made (the element then is a pushed
+\* element like any other) - what matters is that the buffer keeps behaving as specified afterwards
+BPushFailed_(p, v) == BPush_(p, v) \/ UNCHANGED <<pend, asg, cur>>
+
 \* consume() returned `batch`
 BConsume_(batch) ==
   /\ SelectSeq(batch, LAMBDA e : e[1] \notin Producers) = <<>>     \* nothing invented
@@ -140,6 +145,9 @@ VAssign_(v) == asg' = AssignF(asg, v) /\ UNCHANGED <<pend, cur>>
 \* MACRO ACTION: Len(vs) consecutive assignments (values vs, in this order) during which no consumer call
 \* takes effect; the queued value is then the last of the burst.  Law (HandOffMC): BurstAssignF = FoldAssign.
 VBurst_(vs) == asg' = BurstAssignF(asg, vs) /\ UNCHANGED <<pend, cur>>
+
+\* tv = v ended with an exception thrown by the copy of the value: as for BPushFailed_
+VAssignFailed_(v) == VAssign_(v) \/ UNCHANGED <<pend, asg, cur>>
 
 \* update() returned ret
 VUpdate_(ret) ==
